@@ -88,12 +88,14 @@ class Check:
 
     # ------------------------------------------------------------------ scratch
     def scratch(self, sub=None):
-        if self._scratch is None:
-            from vf import build
-            self._scratch = os.path.join(build.build_root(), "scratch",
-                                         "%s-%d" % (self.pid, os.getpid()))
-            shutil.rmtree(self._scratch, ignore_errors=True)
-            os.makedirs(self._scratch)
+        with self.lock:
+            if self._scratch is None:
+                from vf import build
+                d = os.path.join(build.build_root(), "scratch",
+                                 "%s-%d" % (self.pid, os.getpid()))
+                shutil.rmtree(d, ignore_errors=True)
+                os.makedirs(d)
+                self._scratch = d
         if sub:
             d = os.path.join(self._scratch, sub)
             os.makedirs(d, exist_ok=True)
